@@ -343,10 +343,26 @@ fn decode(t: &mut Tape) -> CosCase {
         let (main, suffix) = t.choose(SITES);
         let reg = format!("{}.{}", main, suffix);
         let mut host = reg.clone();
-        for _ in 0..[0usize, 1, 1, 2, 3, 4, 8][t.pick(7)] {
+        for _ in 0..[0usize, 1, 1, 2, 3, 4, 8, 10, 13][t.pick(9)] {
             host = format!("{}.{}", t.choose(&["www", "a", "b", "m", "deep"]), host);
         }
         pages.push(Page { host, reg, suffix: suffix.to_string() });
+    }
+    // sometimes query a bare public suffix right before a site below it (per-query state such as a
+    // "last registrable domain" shortcut would go wrong there)
+    if t.chance(1, 4) {
+        // only suffixes whose first label is not itself used as a hostname location elsewhere
+        // ("com.au" would make the entity stem "com" coincide with the hostname location "com")
+        let suffix = t.choose(&["co.uk", "github.io"]);
+        if let Some((_, rest)) = suffix.split_once('.') {
+            let sfx_page = Page { host: suffix.to_string(), reg: suffix.to_string(), suffix: rest.to_string() };
+            let at = t.pick(pages.len() + 1);
+            pages.insert(at.min(pages.len()), sfx_page);
+            let main = t.choose(&["example", "site", "shop"]);
+            let reg = format!("{}.{}", main, suffix);
+            let host = if t.chance(1, 2) { reg.clone() } else { format!("www.{}", reg) };
+            pages.push(Page { host, reg, suffix: suffix.to_string() });
+        }
     }
     let loc = |t: &mut Tape, pages: &[Page]| -> Loc {
         let p = t.choose_ref(pages).clone();
